@@ -535,19 +535,17 @@ func runC16(tier, replay string) {
 		replays += nh
 		run.Set("conf_"+c.name, fmt.Sprintf("%d histories of %d operations (nest<=%d), tlc %d distinct states, %.1fs since start", nh, c.hist, c.nest, res.Distinct, time.Since(t0).Seconds()))
 	}
-	// vacuity guard: a leaking model must be refuted
-	if tier == "thorough" {
-		for _, leak := range []string{"EndBlock", "Else"} {
-			c := c16Conf{ops: `{"expr","call","if","block","func"}`, nest: 5, stk: 2, hist: 8}
-			res, err := tlc.Run(tlc.Opts{SpecDir: SpecDir, Module: "Builder", Cfg: c16Cfg(c, leak, ""), Workers: 2, Timeout: 10 * time.Minute})
-			if err != nil {
-				run.Infra(err)
-			}
-			if !res.Violation {
-				run.Infra(fmt.Errorf("vacuity: Leak=%s is not refuted", leak))
-			}
+	// vacuity guard: a model whose End forgets to restore the scope depth must be refuted (DepthOK / EndRestores)
+	{
+		c := c16Conf{ops: `{"expr","call","if","block","func"}`, nest: 4, stk: 2, hist: 6}
+		res, err := tlc.Run(tlc.Opts{SpecDir: SpecDir, Module: "Builder", Cfg: c16Cfg(c, "Restore", ""), Workers: 2, Timeout: 10 * time.Minute})
+		if err != nil {
+			run.Infra(err)
 		}
-		run.Set("sabotaged_models_refuted", []string{"EndBlock", "Else"})
+		if !res.Violation {
+			run.Infra(fmt.Errorf("vacuity: Builder.tla with Leak = \"Restore\" is not refuted"))
+		}
+		run.Set("sabotaged_models_refuted", []string{"Restore"})
 	}
 	if states == 0 { // simulation reports no distinct-state count
 		states = replays
